@@ -141,7 +141,9 @@ QuitLoop(st, i, kind, force, fault) ==
          THEN LET b == st.tab[i]
                   r == Save(st, b.lb.lines, b.path, force, b.mtime, fault) IN
               IF ~r.ok THEN [Switch([st EXCEPT !.disk = r.disk, !.now = st.now + 1], i) EXCEPT !.ret = 0, !.msg = "wfail"]
-              ELSE QuitLoop([st EXCEPT !.disk = r.disk, !.now = st.now + 1, !.tab[i].synced = b.lb.lines],
+              (* every buffer written is recorded as saved, with the new time stamp of its file *)
+              ELSE QuitLoop([st EXCEPT !.disk = r.disk, !.now = st.now + 1, !.tab[i].synced = b.lb.lines,
+                                       !.tab[i].lb = Lb!Saved(b.lb, FALSE), !.tab[i].mtime = WriteStamp],
                             i + 1, kind, force, "")
          ELSE QuitLoop(st, i + 1, kind, force, fault)
 Quit(st, kind, force, fault) ==
